@@ -58,7 +58,9 @@ def draw_hierarchy(ch, params):
                 m["extend"] = sorted(set(ch.draw(i, "ext_cls") for _ in range(1 + ch.draw(2, "n_ext"))), reverse=True)
             c["media"] = m
         for attr in ("template", "js", "css"):
-            pk = ch.weighted([5, 4, 2, 1], "pair_" + attr)  # none / inline / file / both (rejected)
+            # none / inline / file / both (rejected) / both with an EMPTY inline member (rejected too: "" is a definition)
+            # / empty inline member alone (a definition: overrides the parents)
+            pk = ch.weighted([5, 4, 2, 1, 1, 1], "pair_" + attr)
             c["pairs"][attr] = pk
         classes.append(c)
     return classes
@@ -190,6 +192,8 @@ def expected_pair(classes, i, attr, content):
         pk = classes[k]["pairs"][attr]
         if pk == 1:
             return content(k, attr, "inline"), None
+        if pk == 5:
+            return "", None
         if pk == 2:
             return content(k, attr, "file_content"), content(k, attr, "file_name")
     return None, None
@@ -253,11 +257,13 @@ def build(classes, copy, tmpdir, rel=None):
         for attr, pk in c["pairs"].items():
             if pk in (1, 3):
                 attrs[attr] = content(i, attr, "inline")
-            if pk in (2, 3):
+            if pk in (4, 5):
+                attrs[attr] = ""
+            if pk in (2, 3, 4):
                 attrs[attr + "_file"] = content(i, attr, "file_name")
                 with open(os.path.join(tmpdir, content(i, attr, "file_name")), "w") as f:
                     f.write(content(i, attr, "file_content"))
-        want_reject = any(pk == 3 for pk in c["pairs"].values())
+        want_reject = any(pk in (3, 4) for pk in c["pairs"].values())
         try:
             cls = type(f"H{copy}_{i}", bases, attrs)
         except ImproperlyConfigured:
@@ -416,7 +422,7 @@ def run(ch, params, decoded=False):
                     break
         stats["probe:multiple_inheritance_or_extend_list"] = multi
         stats["probe:relative_media_paths"] = 1 if rel else 0
-        stats["probe:rejected_double_definition"] = sum(1 for c in classes if any(pk == 3 for pk in c["pairs"].values()))
+        stats["probe:rejected_double_definition"] = sum(1 for c in classes if any(pk in (3, 4) for pk in c["pairs"].values()))
     finally:
         shutil.rmtree(tmpdir, ignore_errors=True)
     key = hashlib.blake2b(json.dumps([classes, sched_a, sched_b, fault, rel]).encode(), digest_size=8).hexdigest()
